@@ -16,6 +16,7 @@ type HeartbeatManager struct {
 	heartBeatNum   uint64 // see https://github.com/golang/go/issues/11891
 	stopHeartbeatC chan struct{}
 	stopMux        sync.Mutex
+	startStopMux   sync.Mutex // serializes StartHeartbeat and StopHeartbeat
 
 	heartBeatTimeout *model.DurationType
 
@@ -88,11 +89,16 @@ func (c *HeartbeatManager) StartHeartbeat() error {
 		return err
 	}
 
+	c.startStopMux.Lock()
+	defer c.startStopMux.Unlock()
+
 	// stop an already running heartbeat
-	c.StopHeartbeat()
+	c.stopHeartbeat()
 	verifPoint("StartHeartbeat.afterStop")
 
+	c.stopMux.Lock()
 	c.stopHeartbeatC = make(chan struct{})
+	c.stopMux.Unlock()
 	verifPoint("StartHeartbeat.afterMake")
 
 	go c.updateHeartbeatData(c.stopHeartbeatC, timeout)
@@ -103,6 +109,13 @@ func (c *HeartbeatManager) StartHeartbeat() error {
 // Stop updating heartbeat data
 // Note: No active subscribers will get any further notifications!
 func (c *HeartbeatManager) StopHeartbeat() {
+	c.startStopMux.Lock()
+	defer c.startStopMux.Unlock()
+
+	c.stopHeartbeat()
+}
+
+func (c *HeartbeatManager) stopHeartbeat() {
 	if c.IsHeartbeatRunning() {
 		verifPoint("StopHeartbeat.beforeClose")
 		close(c.stopHeartbeatC)
